@@ -62,6 +62,7 @@ Inductive val :=
 | VBytes (enc : option N) (b : bytes)  (* ByteString; [Some mk] = symbolic ciphertext of b under mk *)
 | VAttr (a : osattr)                   (* OSAttribute *)
 | VPtr (p : option bytes)              (* caller memory handed in as pValue *)
+| VTmpl (l : list (N * option bytes * N)) (* pValue pointing to an array of CK_ATTRIBUTE (type, pValue, ulValueLen) *)
 | VKey (cls : string) (bits : bytes)   (* SymmetricKey / AESKey / DESKey local *)
 | VAttrObj (cls : string) (ty sz chk : N) (* a P11Attribute instance created by [new P11AttrX(...)] *)
 | VVoid.
@@ -144,6 +145,7 @@ Definition truthy (v : val) : option bool :=
   | VBool b => Some b
   | VInt n => Some (negb (n =? 0))
   | VPtr p => Some (match p with Some _ => true | None => false end)
+  | VTmpl _ => Some true
   | _ => None
   end.
 
@@ -251,6 +253,8 @@ Section Interp.
   Variable ft : ftable.
   Variable consts : list (string * N).                       (* enum constants (ck1 ...) *)
   Variable ctor_defaults : list (string * list (option cexpr)).
+  (* hand-modelled methods (loops over caller arrays), keyed by "Class::method" *)
+  Variable native : string -> option (actx -> list val -> mstate -> outcome val).
 
   Fixpoint const_get (x : string) (l : list (string * N)) : option N :=
     match l with [] => None | (k, v) :: r => if String.eqb k x then Some v else const_get x r end.
@@ -604,9 +608,17 @@ Section Interp.
               end
           | RThis =>
               if String.eqb meth "delete" then Ok VVoid m else
-              match resolve c meth with
-              | Some fn => obind (evs args m) (fun vs m1 => invoke c fn vs m1)
-              | None => Stuck ("this->" +++ meth)
+              let dyn := match split_qual meth with
+                         | Some (_, mm) => if is_virtual mm then c_cls c +++ "::" +++ mm else meth
+                         | None => meth
+                         end in
+              match native dyn with
+              | Some nf => obind (evs args m) (fun vs m1 => nf c vs m1)
+              | None =>
+                  match resolve c meth with
+                  | Some fn => obind (evs args m) (fun vs m1 => invoke c fn vs m1)
+                  | None => Stuck ("this->" +++ meth)
+                  end
               end
           | ROther => Stuck "call"
           end
